@@ -3,9 +3,9 @@ package main
 // E2: path rules over SSA basic blocks, call resolution helpers.
 
 import (
-	"sort"
 	"go/token"
 	"go/types"
+	"sort"
 	"strings"
 
 	"golang.org/x/tools/go/ssa"
@@ -1065,4 +1065,114 @@ func minMaxArgs(v ssa.Value, kind string) ([]ssa.Value, bool) {
 		return call.Call.Args, true
 	}
 	return nil, false
+}
+
+// InstrsDeepList: the instructions of fn and of the module helpers it calls (depth levels down).
+func InstrsDeepList(fn *ssa.Function, depth int) []ssa.Instruction {
+	var out []ssa.Instruction
+	InstrsDeep(fn, depth, func(d DeepInstr) { out = append(out, d.In) })
+	return out
+}
+
+// fieldRemadeBefore: on every path from the entry of `at`'s function to `at`, the slice field
+// owner.field was given a freshly made slice (directly, or by a module helper that always does so
+// and never assigns it anything else), and nothing between that point and `at` assigns it
+// something that is not itself derived from the field (append to it is fine, a reslice of an older
+// buffer is not).  Then a load of the field at `at` is storage made for this call, not kept from
+// an earlier one.
+func fieldRemadeBefore(at ssa.Instruction, owner, field string) bool {
+	fn := at.Parent()
+	isKey := func(addr ssa.Value) bool {
+		fa, ok := addr.(*ssa.FieldAddr)
+		if !ok {
+			return false
+		}
+		st := derefStruct(fa.X.Type())
+		return st != nil && st.Field(fa.Field).Name() == field && typeName(fa.X.Type()) == owner
+	}
+	isFresh := func(v ssa.Value) bool {
+		switch x := v.(type) {
+		case *ssa.MakeSlice:
+			return true
+		case *ssa.Const:
+			return x.Value == nil
+		}
+		return false
+	}
+	// derived: append(load key, ...) chains
+	var derived func(v ssa.Value, d int) bool
+	derived = func(v ssa.Value, d int) bool {
+		if d > 4 {
+			return false
+		}
+		switch x := v.(type) {
+		case *ssa.Call:
+			if b, ok := x.Call.Value.(*ssa.Builtin); ok && b.Name() == "append" {
+				return derived(x.Call.Args[0], d+1)
+			}
+		case *ssa.UnOp:
+			return x.Op == token.MUL && isKey(x.X)
+		}
+		return false
+	}
+	// what a helper does to the field: 1 = always re-makes it, 0 = does not touch it or only
+	// extends it, -1 = assigns something else
+	effect := func(g *ssa.Function) int {
+		if g == nil || g.Blocks == nil || !isModuleFn(g) {
+			return 0
+		}
+		res, remade := 0, false
+		Instrs(g, func(in ssa.Instruction) {
+			st, ok := in.(*ssa.Store)
+			if !ok || !isKey(st.Addr) {
+				return
+			}
+			switch {
+			case isFresh(st.Val):
+				if alwaysExecutes(st) {
+					remade = true
+				}
+			case derived(st.Val, 0):
+			default:
+				res = -1
+			}
+		})
+		if res == 0 && remade {
+			return 1
+		}
+		return res
+	}
+	var remakes []ssa.Instruction
+	clean := true
+	Instrs(fn, func(in ssa.Instruction) {
+		switch x := in.(type) {
+		case *ssa.Store:
+			if !isKey(x.Addr) {
+				return
+			}
+			switch {
+			case isFresh(x.Val):
+				remakes = append(remakes, in)
+			case derived(x.Val, 0):
+			default:
+				clean = false
+			}
+		case *ssa.Call:
+			switch effect(x.Call.StaticCallee()) {
+			case 1:
+				remakes = append(remakes, in)
+			case -1:
+				clean = false
+			}
+		}
+	})
+	if !clean {
+		return false
+	}
+	for _, d := range remakes {
+		if InstrDominates(d, at) {
+			return true
+		}
+	}
+	return false
 }
